@@ -98,6 +98,12 @@ func main() {
 		if i%7 == 0 {
 			copy(autn[0:6], []byte{255, 255, 255, 255, 255, 255})
 		}
+		if i%5 == 1 {
+			autn[0] = 0 // a concealed SQN with one leading zero octet (it enters the K_AUSF derivation with its six octets all the same)
+		}
+		if i%5 == 2 {
+			autn[0], autn[1] = 0, 0
+		}
 		mcc, mnc := digits(r, 3), digits(r, c.mncLen)
 		if i%6 == 0 {
 			mcc, mnc = "001", "01"[:2]
@@ -173,8 +179,20 @@ func main() {
 			rounds = 3
 		}
 		for round := 0; round < rounds; round++ {
-			if round > 0 {
+			if round == 1 {
 				rnd, autn = ev.Bytes(r, 16), ev.Bytes(r, 16)
+			}
+			if round == 2 {
+				// the challenge of the previous round once more (same RAND) with another concealed SQN, for every second of these subscribers
+				// from another serving network: nothing of the previous run may be answered again, K_AUSF depends on AUTN, RES* on the network
+				autn = ev.Bytes(r, 16)
+				if i%6 == 0 {
+					mcc, mnc = digits(r, 3), digits(r, len(mnc))
+					snn = "5G:mnc" + mnc + ".mcc" + mcc + ".3gppnetwork.org"
+					if len(mnc) == 2 {
+						snn = "5G:mnc0" + mnc + ".mcc" + mcc + ".3gppnetwork.org"
+					}
+				}
 			}
 			var a16 [16]byte
 			copy(a16[:], autn)
@@ -184,6 +202,24 @@ func main() {
 				"mcc": ev.Ints([]byte(mcc)), "mnc": ev.Ints([]byte(mnc)), "supi": ev.Ints([]byte(supi)), "enc": c.enc, "int": c.integ,
 				"resStar": ev.Ints(res), "kamf": ev.Ints(ue.Kamf), "kenc": ev.Ints(ue.KnasEnc[:]), "kint": ev.Ints(ue.KnasInt[:]),
 				"panic": p != "", "cls": fmt.Sprintf("mnc%d-supi%d-opOnly%v-round%d", c.mncLen, c.supiLen, c.opOnly, round)})
+		}
+		if i%4 == 2 {
+			// contexts that did not come out of the constructor with their final identity: a copy of this subscriber's context that was given
+			// another SUPI, and a context written down as a struct literal; K_AMF is derived from the SUPI the context holds now
+			supi2 := digits(r, len(supi))
+			cp := *ue
+			cp.Supi = "imsi-" + supi2
+			lit := &tglib.RanUeContext{Supi: "imsi-" + supi2, RanUeNgapId: 2, CipheringAlg: uint8(c.enc), IntegrityAlg: uint8(c.integ)}
+			for vi, u2 := range []*tglib.RanUeContext{&cp, lit} {
+				var a16 [16]byte
+				copy(a16[:], autn)
+				var res []byte
+				p := ev.Catch(func() { res = u2.DeriveRESstarAndSetKey(ue.AuthenticationSubs, a16, rnd, snn, mnc, mcc) })
+				w.Emit(ev.M{"ev": "Derive", "id": fmt.Sprintf("%d.other%d", i, vi), "round": 8, "k": ev.Ints(k), "op": ev.Ints(op), "opc": opcI, "rand": ev.Ints(rnd), "autn": ev.Ints(autn),
+					"mcc": ev.Ints([]byte(mcc)), "mnc": ev.Ints([]byte(mnc)), "supi": ev.Ints([]byte(supi2)), "enc": c.enc, "int": c.integ,
+					"resStar": ev.Ints(res), "kamf": ev.Ints(u2.Kamf), "kenc": ev.Ints(u2.KnasEnc[:]), "kint": ev.Ints(u2.KnasInt[:]),
+					"panic": p != "", "cls": fmt.Sprintf("mnc%d-supi%d-opOnly%v-other%d", c.mncLen, c.supiLen, c.opOnly, vi)})
+			}
 		}
 	}
 }
